@@ -148,11 +148,19 @@ class PhaseTable:
 
 
 def one_level(e, defs):
-    """Text of e; a plain temporary (single definition) is replaced once by its definition."""
+    """Text of e; a plain temporary (single definition) is replaced once by its definition.  A column taken from a
+    tuple-unpacked row (`a, b, c = line.split("\t")[:3]`) reads `ROW[i]`, the row being named by its split expression."""
     if isinstance(e, ast.Name):
         d = [x for x in defs.get(e.id, [])]
         if len(d) == 1 and d[0] is not None and isinstance(d[0], ast.Subscript):
-            return norm(d[0])
+            sub = d[0]
+            base = sub.value
+            # row[:n][i] == row[i]
+            if isinstance(base, ast.Subscript) and isinstance(base.slice, ast.Slice) and base.slice.lower is None and base.slice.step is None and isinstance(const_value(sub.slice), int) and const_value(sub.slice) >= 0:
+                base = base.value
+            if isinstance(base, ast.Call) and ".split('\\t')" in norm(base) and isinstance(const_value(sub.slice), int):
+                return f"ROW[{const_value(sub.slice)}]"
+            return norm(ast.Subscript(value=base, slice=sub.slice, ctx=ast.Load()))
     return norm(e)
 
 
@@ -220,7 +228,7 @@ def phase_table(ctx, f):
         if isinstance(s_, ast.Assign) and isinstance(s_.targets[0], ast.Attribute) and isinstance(s_.value, ast.Name) and s_.value.id in arg_col:
             t.attr_col[s_.targets[0].attr] = arg_col[s_.value.id]
     d = [x for x in t.fill_defs.get(t.elems, []) if x is not None]
-    ok_split = len(d) == 1 and "split('\\t')" in norm(d[0])
+    ok_split = (len(d) == 1 and "split('\\t')" in norm(d[0])) or t.elems == "ROW"
     ctx.check(ok_split, "R20.4", g.where(t.store), "TSV rows are split on tabs", key_of(g, "tsv-split"))
     gds = guards_of(g.node, t.store)
     absent = any(canon_test(x, pol) == (f"{t.key_text} in {t.fill_name}", False) for x, pol in gds)
@@ -433,6 +441,10 @@ def r20_7(ctx, f, table):
     if g is not f and h_in in g.params and getattr(table, "call", None) is not None:
         h = norm(table.call.args[g.params.index(h_in)]) if g.params.index(h_in) < len(table.call.args) else h_in
     opened = [s for s in walk_own(f.node) if isinstance(s, ast.Assign) and norm(s.targets[0]) == h and isinstance(s.value, ast.Call) and norm(s.value.func) == "open"]
+    # ... or `with open(path) as handle:`
+    opened += [w for w in walk_own(f.node) if isinstance(w, ast.With) and any(i.optional_vars is not None and norm(i.optional_vars) == h and isinstance(i.context_expr, ast.Call) and norm(i.context_expr.func) == "open" for i in w.items)]
+    if not opened:
+        raise AnalysisError("R20.7", f.where(), f"cannot find where the TSV handle `{h}` is opened")
     others = []
     for fn_, hn in ((f, h), (g, h_in)):
         for c in walk_own(fn_.node):
